@@ -30,6 +30,10 @@ func runC09(p *load.Program, r *oblig.Report) {
 	c09ContextWaits(p, r)
 	c09AfterClose(p, r)
 	c09LeaveOnClose(p, r)
+	// a generation that was created is closed (its heartbeat loop and watcher stopped and waited for) on every path,
+	// including the one where the group is closed before Next picked the generation up: otherwise those goroutines
+	// outlive ConsumerGroup.Close and keep sending heartbeats (checked by C15.R1)
+	shareRules(r, "C09", "C09.R6 generation goroutines end with the group", func(sub *oblig.Report) { c15NextGeneration(p, sub) })
 }
 
 func c09ClosedFlag(p *load.Program, r *oblig.Report) {
